@@ -591,10 +591,18 @@ def run_long_descriptions(ctx):
     from py_gql import build_schema
     from py_gql import schema as S
     rng = ctx.rng
-    for k in range(ctx.n(24, 120)):
-        n = rng.randint(121, 150)
-        shape = rng.choice(["no-break", "spaces", "hyphens", "underscores", "second-line", "mixed"])
-        if shape == "no-break":
+    wrap_cases = []
+    # named probes (drawn in every run, before any random choice): the two witnesses of Props/C12_wrap.lean and one line per
+    # boundary character
+    probes = [("probe-longLine", "w" * 60 + " " + "v" * 60), ("probe-h12-replay", "short\n" + "y" * 125 + " z"),
+              ("probe-hyphen", "h" * 70 + "-" + "i" * 70), ("probe-underscore", "u" * 70 + "_" + "v" * 70 + " tail"),
+              ("probe-two-long", ("a" * 50 + " ") * 3 + "b\nsecond " + "c" * 118 + " d"), ("probe-no-break", "x" * 125)]
+    for k in range(len(probes) * 3 + ctx.n(24, 120)):
+        n = rng.randint(121, 150) if k >= len(probes) * 3 else 0
+        shape = rng.choice(["no-break", "spaces", "hyphens", "underscores", "second-line", "mixed"]) if k >= len(probes) * 3 else probes[k // 3][0]
+        if k < len(probes) * 3:
+            desc = probes[k // 3][1]
+        elif shape == "no-break":
             desc = "x" * n
         elif shape == "spaces":
             desc = " ".join("w" * rng.randint(5, 70) for _ in range(4))
@@ -608,7 +616,7 @@ def run_long_descriptions(ctx):
             desc = ("w" * 119 + " ") * 2 + "end"
         if max(len(l) for l in desc.split("\n")) <= 116:
             continue
-        where = rng.choice(["type", "field", "argument"])
+        where = rng.choice(["type", "field", "argument"]) if k >= len(probes) * 3 else ["type", "field", "argument"][k % 3]
         arg = S.Argument("a", S.Int, description=desc if where == "argument" else None)
         fld = S.Field("f", S.Int, args=[arg], description=desc if where == "field" else None)
         schema = S.Schema(S.ObjectType("Query", [fld], description=desc if where == "type" else None))
@@ -625,12 +633,53 @@ def run_long_descriptions(ctx):
             ctx.fail("long-description:%s:%s" % (type(e).__name__, shape), "a long description line breaks to_string / build_schema", detail)
             continue
         ctx.nontrivial(t1)
+        wrap_cases.append((shape, where, desc, got, t1 == t2))
         if got != desc or t1 != t2:
-            if shape == "no-break":
+            if shape in ("no-break", "probe-no-break"):
                 ctx.fail("roundtrip-differs:long-line-without-break", "a long description line without a break opportunity is changed", detail)
             else:
                 ctx.fail("H12:description-rewrapped:%s" % ("not-a-fixpoint" if t1 != t2 else "changed"),
                          "a description line longer than the wrap width is broken at a word boundary: the rebuilt description differs", detail)
+
+
+    run_wrap_model(ctx, wrap_cases)
+
+
+def run_wrap_model(ctx, cases):
+    """`wrapped_description_lexes` (Props/C12_wrap.lean) against the real code: for a description inside `descWrapOK`, the
+    description READ BACK from the printed text is the wrapped lines joined by line feeds (the model's `wrappedOf`), and the
+    lexer model reads the model's text as one block string with that value."""
+    if not cases or not ctx.model_ok or not ctx.driver.available():
+        return
+    depth = {"type": 0, "field": 1, "argument": 2}
+    answers = ctx.driver.ask([{"op": "wrapDesc", "d": d, "depth": depth[w], "indent": "    ", "first": True} for _, w, d, _, _ in cases])
+    for (shape, where, desc, got, fixpoint), a in zip(cases, answers):
+        ctx.count()
+        if "ok" not in a:
+            ctx.fail("corr:wrap:no-answer", "model gives no answer", {"answer": a}, kind="correspondence")
+            continue
+        ctx.stat("wrap-model:%s" % ("inside-descWrapOK" if a["ok"] else "outside"))
+        if a["okNarrow"]:
+            ctx.stat("wrap-model:inside-descTextOK")
+        if not a["ok"]:
+            continue
+        value = "".join(chr(c) for c in a["value"])
+        detail = {"description": desc, "where": where, "model_value": value, "real_value": got, "part": "wrap"}
+        if a["lexed"] is None or "".join(chr(c) for c in a["lexed"]) != value:
+            ctx.fail("corr:wrap:theorem-evaluates-false", "the lexer model does not read the model's text as one block string of the wrapped lines",
+                     detail, kind="correspondence")
+        elif got != value:
+            ctx.fail("corr:wrap:value:%s" % shape, "the description read back from the printed text is not the wrapped lines of the model",
+                     detail, kind="correspondence")
+        elif a.get("fits") and not fixpoint:
+            # rewrapped_description_fixpoint: wrapped lines that fit the width are printed the same way again
+            ctx.fail("corr:wrap:fixpoint:%s" % shape, "the wrapped lines fit the width, but printing the rebuilt schema gives another text",
+                     detail, kind="correspondence")
+        else:
+            ctx.nontrivial("wrap|" + where + "|" + desc)
+            if a["lines"] > len(desc.split("\n")):
+                ctx.stat("wrap-model:rewrapped-and-agrees")
+            ctx.stat("wrap-model:%s" % ("fits:text-fixpoint" if a.get("fits") else "too-wide:%s" % ("fixpoint" if fixpoint else "not-a-fixpoint")))
 
 
 def run_corpus(ctx):
@@ -775,6 +824,20 @@ def replay(ctx, data):
         fresh, outs = run_history(ctx, schemas, hist)
         reset_state()
         return fresh == outs
+    if inp.get("part") == "wrap":
+        from py_gql import build_schema
+        from py_gql import schema as S
+        desc, where = inp["description"], inp["where"]
+        arg = S.Argument("a", S.Int, description=desc if where == "argument" else None)
+        fld = S.Field("f", S.Int, args=[arg], description=desc if where == "field" else None)
+        schema = S.Schema(S.ObjectType("Query", [fld], description=desc if where == "type" else None))
+        q = build_schema(schema.to_string()).types["Query"]
+        got = {"type": q.description, "field": q.fields[0].description, "argument": q.fields[0].arguments[0].description}[where]
+        if not ctx.model_ok or not ctx.driver.available():
+            return got == inp.get("model_value")
+        a = ctx.driver.ask([{"op": "wrapDesc", "d": desc, "depth": {"type": 0, "field": 1, "argument": 2}[where], "indent": "    ",
+                             "first": True}])[0]
+        return (not a.get("ok")) or got == "".join(chr(c) for c in a["value"])
     if inp.get("long_description"):
         from py_gql import build_schema
         from py_gql import schema as S
